@@ -4,7 +4,6 @@ package main
 import (
 	"context"
 	"fmt"
-	"hash/fnv"
 	"os"
 	"regexp"
 	"sort"
@@ -18,7 +17,7 @@ import (
 )
 
 var res *vrt.Result
-var nontrivial = map[uint64]struct{}{}
+var nontrivial int64 // cases are distinct by construction (each (filters, static, map) combination is enumerated once)
 
 // ---- reference pattern semantics (FILTERING.md)
 func refMatch(pat, s string) bool {
@@ -217,9 +216,7 @@ func check(c tcase) {
 		bad("tagstage "+strings.SplitN(d, " ", 2)[0], d)
 	}
 	if interesting {
-		h := fnv.New64a()
-		fmt.Fprintf(h, "%v%v%v", c.Filters, c.Static, c.Series)
-		nontrivial[h.Sum64()] = struct{}{}
+		nontrivial++
 	}
 }
 
@@ -396,8 +393,8 @@ func main() {
 		}
 	}
 	res.Sample(tcase{[]fspec{{Match: []string{"a*"}, DropTags: []string{"k:*"}, DropHost: true}}, []string{"s", "a"}, []sdesc{{"c", "a", []string{"k:v"}, "h", 5, 14}, {"c", "a", []string{"k:w"}, "", 6, 15}}})
-	res.DistinctNontrivial = int64(len(nontrivial))
-	res.States = int64(len(nontrivial))
+	res.DistinctNontrivial = nontrivial
+	res.States = nontrivial
 	res.Transitions = res.Evaluations
 	res.Traces = res.Evaluations
 	res.Finish()
